@@ -17,7 +17,8 @@ import (
 //	variant_now        do application()/endpoint() panic on a missing target, or return an error;
 //	                   is the Deactivate(agent) of the in-progress branch of visitEndpoint guarded by `upto != nil`
 //	agent_table        MakeAgent: pattern -> (category, agent kind), and the default
-//	stmt_arms          visitStatment: statement kind -> visitor method (default arm: panic)
+//	                   does the default arm of visitStatment's type switch (a statement without `Stmt`) panic, or set the error
+//	stmt_arms          visitStatment: statement kind -> visitor method (default arm: "panic" or "error")
 //	block_visitors     per block visitor: helper it delegates to, opening keyword, whether it forwards e.isLastStmt(i)
 //	group_stmt_closes  visitGroupStmt = visitBlockStmt followed by "end"
 //	alt_rule           visitAlt: a choice is flagged last iff the alt is the last statement and the choice is the last one;
@@ -726,6 +727,11 @@ func seqShape(repo string) (string, error) {
 							if c, ok := b.Rhs[0].(*ast.CallExpr); ok {
 								if ch := selChain(c.Fun); len(ch) == 2 {
 									method = ch[1]
+									// `err = fmt.Errorf(...)` / `err = errors.New(...)`: the arm reports an error
+									if id, ok := b.Lhs[0].(*ast.Ident); ok && len(b.Lhs) == 1 && id.Name == "err" &&
+										((ch[0] == "fmt" && ch[1] == "Errorf") || (ch[0] == "errors" && ch[1] == "New")) {
+										method = "error"
+									}
 								}
 							}
 						}
@@ -754,6 +760,24 @@ func seqShape(repo string) (string, error) {
 		if n != 1 {
 			unknown("visitStatment: %d type switches", n)
 		}
+	}
+	nilPanics, nDefault := false, 0
+	for _, a := range arms {
+		if a.kind == "default" {
+			nDefault++
+			switch a.method {
+			case "panic":
+				nilPanics = true
+			case "error":
+				nilPanics = false
+			default:
+				unknown("visitStatment: default arm neither panics nor sets the error")
+			}
+		}
+	}
+	if nDefault != 1 {
+		// without a default arm a statement without Stmt would be skipped: not what the model does
+		unknown("visitStatment: %d default arms", nDefault)
 	}
 
 	// ---- 5. block visitors: methods whose body is `return v.visit{Group,Block}Stmt(e, stmts, e.isLastStmt(i), "kw ...", ...)`
@@ -930,7 +954,7 @@ func seqShape(repo string) (string, error) {
 		fmt.Fprintf(&sb, "(* not classified: %s *)\n", strings.ReplaceAll(w, "*)", "* )"))
 	}
 	fmt.Fprintf(&sb, "Definition shape_known : bool := %s.\n", b2s(known))
-	fmt.Fprintf(&sb, "Definition variant_now : variant := {| v_lookup_panics := %s; v_inprog_unguarded := %s |}.\n", b2s(lookupPanics), b2s(inprogUnguarded))
+	fmt.Fprintf(&sb, "Definition variant_now : variant := {| v_lookup_panics := %s; v_inprog_unguarded := %s; v_nil_panics := %s |}.\n", b2s(lookupPanics), b2s(inprogUnguarded), b2s(nilPanics))
 	sb.WriteString("Definition agent_table : list (string * (N * string)) := [")
 	for i, a := range agents {
 		if i > 0 {
